@@ -195,6 +195,16 @@ class Fingerprint:
     def fingerprint(self) -> bytes:
         return self._fingerprint
 
+    # A Fingerprint is part of ConnectionKey: equal digests must give equal
+    # keys, otherwise every request gets a pool (and a limit) of its own.
+    def __eq__(self, other: object) -> bool:
+        if not isinstance(other, Fingerprint):
+            return NotImplemented
+        return self._fingerprint == other._fingerprint
+
+    def __hash__(self) -> int:
+        return hash(self._fingerprint)
+
     def check(self, transport: asyncio.Transport) -> None:
         if not transport.get_extra_info("sslcontext"):
             return
